@@ -69,8 +69,8 @@ for e in engines:
     s = s.replace('\tdefault:\n\t\tfmt.Fprintln(os.Stderr, "unknown engine"', block + '\tdefault:\n\t\tfmt.Fprintln(os.Stderr, "unknown engine"', 1)
     print('  main.go: added engine', e)
 # imports the slice's main.go has and ours lacks
-imps_src = set(re.findall(r'\n\t("[^"\n]+"|\w+ "[^"\n]+")', src[:src.index(')')]))
-imps_dst = set(re.findall(r'\n\t("[^"\n]+"|\w+ "[^"\n]+")', s[:s.index(')')]))
+imps_src = set(re.findall(r'\n\t("[^"\n]+"|\w+ "[^"\n]+")', src[src.index('import ('):src.index(')', src.index('import ('))]))
+imps_dst = set(re.findall(r'\n\t("[^"\n]+"|\w+ "[^"\n]+")', s[s.index('import ('):s.index(')', s.index('import ('))]))
 for imp in sorted(imps_src - imps_dst):
     s = s.replace('import (\n', 'import (\n\t' + imp + '\n', 1)
     print('  main.go: added import', imp)
